@@ -656,9 +656,9 @@ LEVEL_TEXT = ('Theorems (Props/C19.v, all closed under the global context) over 
               '(C19_roundtrip_whole_partial); tie T: the line classification is the source\'s if/elif chain over the regenerated line-number '
               'expressions and the declared count is the source\'s expression (C19_classify_is_source, C19_header_count_is_source, coq/Gen/IcarttSrc.v); '
               'against the specification: C19_expected_is_spec, C19_roundtrip_whole (write then read = spec_roundtrip f on whole files), C19_spec_fixed_point, '
-              'C19_second_cycle_whole, C19_side_conditions_closed_vars (variable part of the closure proved), C19_second_cycle_whole_attrs (second cycle on whole '
-              'files from hypotheses on f plus four attribute facts of the file read back); left (comment): the attribute part of the closure '
-              '(attribute-list invariant through the header loop); evaluated by vm_compute (C19_domain_inhabited, C19_repaired_cases) and compared with the library on every case; '
+              'C19_side_conditions_closed_vars, C19_side_conditions_closed_attrs, C19_side_conditions_closed (the side conditions of the file read back follow '
+              'from those of f: attribute-list invariant through the header loop), C19_second_cycle_whole (second cycle on whole files, hypotheses on f only); '
+              'the whole-file theorems assume only the boolean side conditions on f; evaluated by vm_compute (C19_domain_inhabited, C19_repaired_cases) and compared with the library on every case; '
               '_refuted = remaining known findings: C19_indep_code_refuted, C19_mask_long_code_refuted, C19_value_collision_refuted, '
               'C19_name_slash_refuted, C19_unit_comma_refuted. Tie H: text line by line, reader result, getreader class, second cycle.')
 LEVEL_NOTE = ('Trusted: Coq kernel + vm_compute; the harness; binary64 <-> <=15-digit decimal round trip and glibc %.6e rounding (checked per case); '
